@@ -37,10 +37,14 @@ pub fn reach<const N: usize>(nodes: &[Raw; N]) -> [bool; N] {
         while i < N {
             if reach[i] {
                 if let Some(c) = nodes[i].2 {
-                    reach[c] = true;
+                    if c < N {
+                        reach[c] = true;
+                    }
                 }
                 if let Some(c) = nodes[i].3 {
-                    reach[c] = true;
+                    if c < N {
+                        reach[c] = true;
+                    }
                 }
             }
             i += 1;
@@ -61,14 +65,22 @@ pub fn wf<const N: usize>(nodes: &[Raw; N], reach: &[bool; N]) -> bool {
         if reach[i] {
             let p = &nodes[i].0;
             if let Some(c) = nodes[i].2 {
-                let cp = &nodes[c].0;
-                ok = ok && c != 0 && cp.1 > p.1 && cp.1 <= W && covers(p, cp) && !bit(cp, p.1);
-                refs[c] += 1;
+                if c < N {
+                    let cp = &nodes[c].0;
+                    ok = ok && c != 0 && cp.1 > p.1 && cp.1 <= W && covers(p, cp) && !bit(cp, p.1);
+                    refs[c] += 1;
+                } else {
+                    ok = false;
+                }
             }
             if let Some(c) = nodes[i].3 {
-                let cp = &nodes[c].0;
-                ok = ok && c != 0 && cp.1 > p.1 && cp.1 <= W && covers(p, cp) && bit(cp, p.1);
-                refs[c] += 1;
+                if c < N {
+                    let cp = &nodes[c].0;
+                    ok = ok && c != 0 && cp.1 > p.1 && cp.1 <= W && covers(p, cp) && bit(cp, p.1);
+                    refs[c] += 1;
+                } else {
+                    ok = false;
+                }
             }
         }
         i += 1;
@@ -221,6 +233,12 @@ pub fn mk_map<const N: usize, const F: usize>(
     cap: usize,
     fcap: usize,
 ) -> PrefixMap<P, u8> {
+    #[cfg(kani)]
+    {
+        crate::stubs::allow_alloc(0, N * std::mem::size_of::<Raw>());
+        crate::stubs::allow_alloc(1, cap * 40);
+        crate::stubs::allow_alloc(2, fcap * 8);
+    }
     let mut v: Vec<Raw> = Vec::with_capacity(N);
     let mut i = 0;
     while i < N {
